@@ -265,7 +265,16 @@ public:
         {
             destruct_pixels(_view);
             create_view(dims, std::integral_constant<bool, IsPlanar>());
-            default_construct_pixels(_view);
+            try
+            {
+                default_construct_pixels(_view);
+            }
+            catch (...)
+            {
+                // no pixel of the new view is alive: keep the storage, hold an empty view
+                _view = view_t();
+                throw;
+            }
         }
         else
         {
@@ -290,7 +299,16 @@ public:
         {
             destruct_pixels(_view);
             create_view(dims, typename std::integral_constant<bool, IsPlanar>());
-            uninitialized_fill_pixels(_view, p_in);
+            try
+            {
+                uninitialized_fill_pixels(_view, p_in);
+            }
+            catch (...)
+            {
+                // no pixel of the new view is alive: keep the storage, hold an empty view
+                _view = view_t();
+                throw;
+            }
         }
         else
         {
@@ -316,7 +334,16 @@ public:
         {
             destruct_pixels(_view);
             create_view(dims, std::integral_constant<bool, IsPlanar>());
-            default_construct_pixels(_view);
+            try
+            {
+                default_construct_pixels(_view);
+            }
+            catch (...)
+            {
+                // no pixel of the new view is alive: keep the storage, hold an empty view
+                _view = view_t();
+                throw;
+            }
         }
         else
         {
@@ -341,7 +368,16 @@ public:
         {
             destruct_pixels(_view);
             create_view(dims, std::integral_constant<bool, IsPlanar>());
-            uninitialized_fill_pixels(_view, p_in);
+            try
+            {
+                uninitialized_fill_pixels(_view, p_in);
+            }
+            catch (...)
+            {
+                // no pixel of the new view is alive: keep the storage, hold an empty view
+                _view = view_t();
+                throw;
+            }
         }
         else
         {
